@@ -2,27 +2,43 @@
 """C01 - parse() is total: it always returns a well-formed result/error record
 
 Every call of the real `Parser.parse` made by this plugin runs
-  * in a CHILD process (a farm of forked workers) that the parent kills when a call exceeds
-    its wall-clock budget - a C-level loop cannot hang the check, it becomes a violation
-    with the formula as replay;
-  * under a deterministic STEP budget: a counter of interpreter events (function entries +
-    jumps, `sys.monitoring`; line events with `sys.settrace` before Python 3.12) that raises
-    a private BaseException subclass - `Parser.parse` catches `Exception`, so the budget
-    exception is not swallowed.
+  * in a CHILD process (a farm of forked workers) watched by the parent.  The time budget of a call (WALL_BASE seconds,
+    scaled quadratically beyond 10^4 characters) is judged on the PROCESSOR time the call itself has used, wall-clock
+    being only the trigger and the outer guard: once the budget has passed in wall-clock the parent reads the processor
+    time of the worker (/proc/<pid>/stat, minus time.process_time() noted when the call began) and kills the worker when
+    that exceeds the budget (the call does not return in bounded time), when it is below 2 % of the elapsed time (the
+    call is blocked, not working - a deadlock does not return either), when it cannot be read, or when 10 budgets of
+    wall-clock have passed; otherwise the call is still computing on a starved processor and is left running.  A C-level
+    loop cannot hang the check, it becomes a violation with the formula as replay; so does a worker that dies during a
+    call;
+  * under a deterministic STEP budget: a counter of interpreter events (function entries + jumps, `sys.monitoring`; trace
+    events / LINE_FACTOR with `sys.settrace` before Python 3.12) that raises a private BaseException subclass -
+    `Parser.parse` catches `Exception`, so the budget exception is not swallowed.
 The oracle (i)-(v) is evaluated inside the worker on the object `parse` returned (results
-are arbitrary host objects and need not survive pickling); the worker reports the verdicts.
+are arbitrary host objects and need not survive pickling); the worker reports the verdicts.  After judging, the worker -
+the caller of parse - empties the returned record and writes a foreign key into it: a record object that the
+implementation hands out a second time comes back without its entries and fails (i).
+
+Case kinds (one case = one shard of calls run by one worker): `strings` (streams soup, mutant, nest, literal, literal-pow,
+redos, unicode, fn-edge, fn-pattern: a list of inputs for the shared `soup` parser), `wf` (well-formed formulas of the
+C04/C08 generators on their parsers, compared with the model), `long` (one input given as pre + sep.join([unit] * n) + post),
+`fn` (one registered name x one arity x pool tuples, on the shared `pool` parser), `host` (one callback behaviour x its
+formulas, a fresh parser per call), `subs` (one host program x its formulas, a fresh parser per call).
 
 The step counter is active while host callbacks run (they run inside parse): an overrun inside a
 listener is raised there as the same BaseException and travels through emit and parse; should the
 implementation swallow it, it is raised again every REARM events and the call is a violation even
-if it finally returns (`meter.fired`).  A call that outlives its wall-clock budget is killed with
-its worker and reported as a violation with the formula (and, for the `subs` stream, the host
-program) as replay; when calls that do not return use up the overall deadline of the farm and
-violations are on record, the remaining cases are abandoned and the verdict is VIOLATION, not a
-harness error.  Self-test of that path (against a tree whose emit walks the live listener list):
+if it finally returns (`meter.fired`).  A call that is killed on its time budget is reported as a violation with the
+formula (and, for the `subs` stream, the host program) as replay; the rest of its shard is run in a new worker without
+that call, except that a `subs` shard (all its formulas run the same host program) ends with the first call that does
+not return and any other case is given up after three calls that did not return (`abandoned`).  When calls that do not
+return use up the overall deadline of the farm and violations are on record, the remaining cases are abandoned and the
+verdict is VIOLATION, not a harness error (without violations on record the overrun of the deadline is a harness error).
+Self-test of that path (against a tree whose emit walks the live listener list):
   C01_STEP_BASE=1000000000000 C01_HOST_CAP=1000000000 C01_WALL_BASE=3 HOTXLFP_REPO=<tree> check.py C01
-(step budget and host bound out of the way, 3 s of wall-clock per call) must exit 1 with
-"does not return within the wall-clock budget".  These variables are for that self-test only.
+(step budget and host bound out of the way, a time budget of 3 s per call) must exit 1 with
+"does not return within the wall-clock budget" (the wording of the message for every call killed on its time budget).
+These variables are for that self-test only.
 """
 import datetime
 import json
@@ -55,64 +71,151 @@ STEP_BASE = int(os.environ.get('C01_STEP_BASE', '0') or 0) or 1000000       # in
 STEP_PER_CHAR = 100       # ... plus this many per input character (ply's loops are linear in the input)
 REARM = 20000             # see StepMeter
 LINE_FACTOR = 8           # settrace fallback: one step ~ 8 line events
-WALL_BASE = float(os.environ.get('C01_WALL_BASE', '0') or 0) or 20.0          # seconds; scaled by max(1, len/10^4)^2 (the lexer's regular expressions backtrack quadratically)
+# seconds of the call's own processor time, read once that much wall-clock has passed (outer guard: 10 times as much);
+# scaled by max(1, len/10^4)^2 (the lexer's regular expressions backtrack quadratically)
+WALL_BASE = float(os.environ.get('C01_WALL_BASE', '0') or 0) or 20.0
 WORKERS = int(os.environ.get('C01_WORKERS', '0') or 0) or min(16, os.cpu_count() or 4)
 
 RULE_STATIC = (
-    'oracle = the statement on the real parse: (i) a dict with exactly the keys result,error; (ii) error is None or one of the nine '
-    'codes; (iii) error set -> result None; (iv) result is not an XLError; (v) the call returns - no exception of any kind '
-    'escapes - within 10^6 + 100*len interpreter steps and within the wall-clock budget (child process, killed on overrun). '
-    'Streams: (a) soup = seeded concatenations of token texts of every lexer token class (coverage of lexer.tokens asserted) '
-    'and of illegal characters; mutant = prefixes, suffixes, single deletions, duplications, swaps and insertions applied to '
-    'well-formed formulas generated with the C04/C08 generators; wf = those well-formed formulas themselves (compared with '
-    'the model); nest = bracket/paren/call/operator nesting of depth 1..1000 (10^4 thorough), balanced and unbalanced; '
-    'literal = numeric-literal forms with long digit strings; (b) unicode = seeded strings over ASCII, controls, Latin-1, BMP, '
-    'astral, lone surrogates, Unicode spaces and digits, alone and spliced into formulas; long = inputs of 10^4 (quick) and '
-    '3*10^4..10^5 (thorough) characters of 22 shapes; (c) fn = EVERY name in formulas.supported() x arity 0..4 x tuples of a '
-    '14-value pool (3, -2, 2.5, "12", "abc", "", TRUE, blank, #DIV/0!, #N/A, #VALUE!, the date 2020-02-29, {1,2,3}, '
-    '{{1,2},{3,4}} - the statement lists these 14 kinds) bound to variables va..vn: quick = arities 0..2 complete + a seeded sample '
-    'of arities 3 and 4; thorough = arities 0..4 COMPLETE, 156*(1+14+14^2+14^3+14^4) calls (no function is excluded; '
-    'NOW/TODAY/RAND/RANDBETWEEN are included, their values are not compared with the model); arguments outside the pool '
-    '(e.g. FACT of a huge number) are not part of this stream; every fn case asserts through a callFunction listener that '
-    'the function was really dispatched; (d) host = custom functions, variable values and listeners on the four events that '
-    'return any pool value, return a foreign XLError, an XLError subclass, odd objects, raise each singleton, '
-    'ValueError("#N/A"), an exception whose __str__ raises, SyntaxError, StopIteration, RecursionError, MemoryError..., call '
-    'the setter with odd values, re-enter parse on the same parser (bounded and unbounded), modify the parser during the '
-    'call; plus hostile objects (a value whose __class__ raises, an exception whose __traceback__ setter raises); '
-    '(e) subs = listeners and custom functions that RETURN NORMALLY but manipulate the parser\'s own subscriptions and bindings '
-    'while they run, given as small programs (handlers = lists of the actions set / on / once / off(name) / off(name, cb) / '
-    'set_variable / set_function; targets: the running callable itself = re-arming, a fresh callable that in turn does the '
-    'same, another handler; events: the one being delivered or a named one; names: the one being resolved or a literal): '
-    'structured = 27 scenarios (re-arm self/fresh/ping-pong/twice, once, on-then-once, once-then-on, subscribe for the other '
-    'events, off self/all/other/other events, off-then-on, on-then-off, set_variable/set_function of the resolved name, a '
-    'custom function that arms listeners or re-binds itself) x each of the four events, run on formulas with one and with '
-    'several references of that event and on mixed formulas; generated = seeded programs of 1..3 handlers x 1..4 actions, '
-    '1..2 initial subscriptions (on/once, any event), sometimes a custom function, on 6..9 formulas of at most 4 emits; '
-    'a fresh parser per call; the host callables stop acting after 300000 calls per parse (their own bound; under '
+    'oracle = the statement on the real parse, judged in the worker on the object returned: (i) a dict (no subclass) with '
+    'exactly the keys result,error; (ii) error is None or a str (no subclass) among the nine codes; (iii) error set -> result '
+    'None; (iv) result is not an instance of XLError or of a subclass; (v) the call returns - no exception of any kind '
+    '(BaseException) escapes - within 10^6 + 100*len interpreter steps (function entries + jumps, host callbacks included; a '
+    'budget exception that is swallowed is raised again every 20000 events and the call is a violation even if it returns) and '
+    'within the time budget T = 20 s * max(1, len/10^4)^2, judged on the PROCESSOR time of the call: once T of wall-clock has '
+    'passed (polled every 0.2 s) the parent reads the processor time the worker has used since it began the call and kills it '
+    '- a violation - if that exceeds T, is below 2 % of the elapsed time (blocked), cannot be read, or 10*T of wall-clock have '
+    'passed (outer guard); a worker that dies during a call counts the same. After a call that did not return the rest of the '
+    'shard runs in a new worker; a subs shard ends with the first such call, any other case is abandoned after 3. After '
+    'judging, the worker (the caller) empties every returned record and writes a foreign key into it: a record object handed '
+    'out twice fails (i). Farm: min(16, cpus) forked workers (recursion limit 1000), overall wall-clock deadline 1500 s quick '
+    '/ 6000 s thorough: passed with violations on record -> the unfinished cases are abandoned, verdict VIOLATION; without -> '
+    'harness error. scale = 1 (quick: 5 when a listed function changed or the Lean build broke). Streams: (a) strings on one '
+    'parser per worker (va..vn = the pool, function ID, a cell listener over 4 cells, a range listener); soup, mutant, '
+    'unicode, wf in cases of 100: soup = 3000 (thorough 30000) x scale seeded concatenations of 1..20 pieces - texts of the 36 '
+    'token classes of the soup alphabet (88 texts; coverage of lexer.tokens asserted), 4 % illegal characters (16), in half of '
+    'the soups mostly from a 28-piece operand/operator list - + a sixth as many soups of 1..13 bracket/quote/separator pieces '
+    '+ every token text and illegal character alone + "", " ", "=", "=1", "=1+1"; wf = the well-formed formulas of 500 (4000) '
+    'x scale seeded trees of depth 1..5 (1..7): 55 % C04 operator trees (c04.gen_top, no error leaves) rendered minimal, fully '
+    'parenthesised and with white space / an outer parenthesis, on the C04 parser (its ID function and cell and variable '
+    'listeners re-enter parse), 45 % C08 error-propagation trees (c08.gen, error-leaf probability 0.15/0.3/0.6) under one of '
+    'the 10 C08 wrappers on the C08 parser; mutant = 3 per wf formula: prefix, suffix, a character or a slice deleted, a '
+    'character or the whole formula doubled, two characters swapped, one of 21 pieces inserted; nest = 24 '
+    'bracket/paren/call/operator/quote/postfix shapes, balanced and unbalanced, at depths 1,2,3,10,50,200,1000 (+10^4 '
+    'thorough; up to 1.1*10^4 / 1.1*10^5 characters); literal = 54 numeric-literal forms (up to 5000 digits, . % ^ e forms, '
+    'powers beyond the doubles such as 10^400, 9^99999); literal-pow = 7 power literals (9^99999999 bare, negated and inside '
+    'SUM, 2^(40 nines), (40 nines)^(40 nines), 3^1023, 99^170), one case each; redos = 3633 near-misses of the token rules, '
+    'one case each: 21 units (backslash escapes, quotes, fragments of names, cells, numbers and error literals, operators, '
+    'blank, e-acute) repeated 24/40/64 times between 11 prefixes and 5 suffixes and 500/3000 times after 4 prefixes (up to '
+    '6001 characters) - where a backtracking regular expression that admits two decompositions of a text takes exponential '
+    'time; (b) unicode = 2500 (20000) x scale strings of 1..40 characters over ASCII, controls, Latin-1, BMP, astral, lone '
+    'surrogates, 18 Unicode spaces/format characters, 9 digits outside [0-9], 9 case-mapping oddities, 35 % alone, else '
+    'spliced into one of 20 formula templates; long = 24 shapes (operator chains, argument and row lists, quotes, escapes, '
+    'names, cells, #, blanks, newlines, digits, lone surrogates) of 10^4 units of 1..3 characters (10^4..3*10^4 characters), '
+    'thorough also of 10^5 units (3*10^4 for the 3 shapes marked quadratic in the lexer; up to 3*10^5 characters) and "a"*10^5 '
+    'once, one input per case; (c) fn = EVERY name in formulas.supported() (N names, 156 in the pinned tree; none excluded, '
+    'NOW/TODAY/RAND/RANDBETWEEN included) x arity 0..4 x tuples of a 14-value pool (3, -2, 2.5, "12", "abc", "", TRUE, blank, '
+    '#DIV/0!, #N/A, #VALUE!, the date 2020-02-29, {1,2,3}, {{1,2},{3,4}} - one value of every type) bound to variables va..vn '
+    '(the array values are restored when a builtin changed them in place; counted in the statistics): quick = arities 0..2 '
+    'complete (211 calls per name) + 60 x scale seeded tuples each of arity 3 and 4; thorough = arities 0..4 COMPLETE, '
+    'N*(1+14+14^2+14^3+14^4) calls, + 3000 more arity-4 tuples per modelled name for the model; arguments outside the pool are '
+    'not part of this stream; a callFunction listener counts the dispatches: a fn shard with fewer dispatches than calls is a '
+    'harness error; fn-edge (a strings case per name) = every name on numeric edges written as literals: 22 numbers (+-0.5, '
+    '+-10^-9, 0, -0, +-1, +-1.5, 2, 36, 37, +-255, +-10^15, +-10^300, 2^53, 0.1, -2.5) alone and in all 22^2 pairs, 7 numeric '
+    'texts at the edges of float() ("1e400", "nan", "inf", "1e-400", REPT("9",400), ...) alone and paired both ways with 6 '
+    'small numbers, 40 (600) x scale seeded triples over 13 of the numbers: 637 (1197) calls per name; fn-pattern = one case '
+    'of 242 calls: 11 wildcard patterns whose literal tail occurs in neither text (6..24 groups "*-" or "*a", 14 x "?*", 30 x '
+    '"*", also behind the criteria prefixes <> and =) x 2 texts (48 words joined by "-"; 40 x "a") x COUNTIF, SUMIF, '
+    'AVERAGEIF, their ...IFS forms, MAXIFS and MATCH over {text,text,1}, SEARCH, FIND, SUBSTITUTE on the text; (d) host = a '
+    'fresh parser per call with one misbehaving callback: a custom function F (69 behaviours x 16 formula forms), the value of '
+    'variable x (31 values x 14 forms), a listener on each of the four events (71 behaviours x 6..7 forms). return/hold (31): '
+    'any pool value, a foreign XLError("#WEIRD"), an XLError subclass, one whose __str__ raises, XLError() without message, '
+    'the XLError class, object(), a record-like dict, nan, inf, 10^5000, bytes, a tuple and a list holding errors, a value '
+    'whose str/repr raise, an unhashable value whose == and truth value raise, an exception instance, a generator; raise (33): '
+    'each of the nine singletons, ValueError("#N/A" / "#GETTING_DATA" / "boom" / "" / "#n/a"), foreign and message-less '
+    'XLError, exceptions whose __str__ (and __repr__) raise, SyntaxError, StopIteration, StopAsyncIteration, RecursionError, '
+    'MemoryError, KeyError, AssertionError, OSError, UnicodeDecodeError, UserWarning, TypeError, ZeroDivisionError, an '
+    'exception CLASS, an unhashable exception (== defined, no hash), a hostile exception (==, !=, hash, truth value, len '
+    'raise); setter (28, listeners): called with any pool value or one of 10 odd values, twice, then raising, with None, '
+    'without argument; re-enter parse on the same parser (5): another formula, the same formula to depth 3, the same formula '
+    'without a depth bound (stops after 1000 calls in all), a failing formula whose whole record is handed on, reenter:edit = '
+    'the empty formula, whose returned record the host annotates and strips of result and error; modify the parser during the '
+    'call (4, listeners): off itself, on itself again (up to 49 times), rebind a + shadow SUM + delete TRUE, clear all '
+    'listeners and variables; a listener that does nothing; + 5 fixed hostile-object cases (a value whose __class__ raises as '
+    'result of F and as variable value, an exception whose __traceback__ setter raises from F and from a callVariable '
+    'listener); (e) subs = listeners and custom functions that RETURN NORMALLY but manipulate the parser\'s own subscriptions '
+    'and bindings while they run, given as small programs (handlers = lists of the actions set / on / once / off(name) / '
+    'off(name, cb) / set_variable / set_function; targets: the running callable itself = re-arming, a fresh callable that in '
+    'turn does the same, another handler; events: the one being delivered or a named one; names: the one being resolved or a '
+    'literal): structured = 27 scenarios (re-arm self/fresh/ping-pong/twice, once, on-then-once, once-then-on, subscribe for '
+    'the other events, off self/all/other/other events, off-then-on, on-then-off, set_variable/set_function of the resolved '
+    'name, a custom function that arms listeners or re-binds itself) x each of the four events, run on the 5..6 formulas with '
+    'one and with several references of that event and on 11 mixed formulas; 1 fixed regression case (a callCellValue listener '
+    'that subscribes itself again); generated = 250 (3000) x scale seeded programs of 1..3 handlers x 1..4 actions (at most 2 '
+    'on/once each), 1..2 initial subscriptions (on/once, any event), in 35 % a custom function, on 6..9 formulas of at most 4 '
+    'emits; a fresh parser per call; the host callables stop acting after 300000 calls per parse (their own bound; under '
     'snapshot delivery they are called once per subscription and emit, at most 120 times); after the first call of a subs '
-    'shard that overruns a budget the other formulas of the shard (same host program) are not run. Model '
-    'comparison (eval of the Lean model, same formula and environment): wf formulas, fn calls of modelled builtins '
-    '(arities 0..2 complete + samples; thorough: 0..3 complete + sample of 4), host functions/variables that return a pool '
-    'value or raise; soups, mutants, unicode, long, nest, literal, subs: oracle only (the model has no subscriptions). Non-trivial = at least one call made (fn: '
-    'dispatched). One case = one shard of calls; the number of calls is in the run statistics appended below.')
+    'shard that overruns a budget the other formulas of the shard (same host program) are not run. Model comparison (eval of '
+    'the Lean model, same formulas and environment): wf formulas; fn calls of the builtins the Lean driver reports as modelled '
+    '(125 of the 156; quick: arities 0..2 complete + the samples; thorough: 0..3 complete + the sample of 4); host function F '
+    'that returns a pool value or raises a singleton or a ValueError, host variable x holding a pool value; all else (soup, '
+    'mutant, nest, literal, literal-pow, redos, unicode, long, fn-edge, fn-pattern, listeners, odd host values, subs - the '
+    'model has no subscriptions) is oracle only. Records agree up to 4 ulps or 1e-9 relative on floats, 2 us + 2^-49 relative '
+    'on dates; not compared: model records without opinion, calls that violated (v), = < > on an array-valued host value, '
+    'complex results, GEOMEAN/HARMEAN when both sides report an error. When the Lean build or the comparison broke and no call '
+    'failed, every stream is generated again with scale >= 4 (wf left out), oracle only, until the first failure. Non-trivial '
+    '= at least one call of the shard was made. One case = one shard of calls = one evaluation; the number of calls is in the '
+    'run statistics appended below.')
 RULE = RULE_STATIC
-TRUSTED = ['the step counter (sys.monitoring JUMP + PY_START events, CPython 3.12) sees every Python-level loop iteration and call; '
-           'C-level loops (re, int arithmetic, str methods) are bounded only by the wall-clock guard',
-           'os.fork / SIGKILL of the worker farm',
+TRUSTED = ['the step counter (sys.monitoring JUMP + PY_START events, CPython >= 3.12; before that sys.settrace events / 8) '
+           'sees every Python-level loop iteration and call; C-level loops (re, int arithmetic, str methods) are bounded only '
+           'by the time budget',
+           'os.fork / SIGKILL of the worker farm; utime + stime of /proc/<pid>/stat against time.process_time() of the '
+           'single-threaded worker measure the processor time of a call (set-up of its parser and judging included); without '
+           '/proc the budget is plain wall-clock',
+           'the thresholds of the time verdict: under 2 % processor share after a budget of wall-clock means blocked, not '
+           'starved; no machine load stretches a call that is within its budget beyond 10 budgets; a worker that dies during a '
+           'call died of the call',
            'stream (e): the steps of the host callables count towards the budget of the call they run in; a call of a callable '
-           'costs about 11 steps and the programs are bounded (see subs_bound) so that under snapshot delivery a parse of '
-           'this stream stays below 5 % of the budget - an overrun is the delivery\'s, not the host\'s',
-           'builtins outside the modelled families: oracle only (their termination is that of math/statistics/re)',
-           'comparison operators applied to array-valued host values are not compared with the model (evaluate_logic is modelled on scalars)']
-ASSUMPTIONS = ['"raising" host callbacks raise subclasses of Exception; KeyboardInterrupt, SystemExit, GeneratorExit and other bare '
-               'BaseException subclasses propagate by design (`except Exception`) and are not exercised',
-               '"bounded time" is read as: at most 10^6 + 100*len(input) interpreter steps (function entries + jumps) and at most '
-               '20 s * max(1, len/10^4)^2 wall-clock per call',
-               '"the result is never itself an error object" is about the result entry itself; a list result may contain error objects',
-               'host callbacks that never return are not callbacks "that return or raise" and are not exercised; a listener that '
-               'subscribes listeners while it runs (re-arming) returns at every call and stops acting after 300000 calls: '
-               'when delivery to such a host does not end within the budgets, that is counted against parse',
-               'the input is a str; other argument types are outside the statement']
+           'costs about 11 steps and the programs are bounded (see subs_bound: 120 calls, 51240 steps) so that under snapshot '
+           'delivery a parse of this stream stays near 5 % of the budget - an overrun is the delivery\'s, not the host\'s',
+           'builtins the Lean driver answers `unmodelled-builtin` for (in the pinned model: trigonometric/hyperbolic '
+           'functions, DEGREES, RADIANS, EXP, LN, LOG, LOG10, SQRT, POWER, PI, PV, TEXT, NOW, TODAY, RAND, RANDBETWEEN): '
+           'oracle only (their termination is that of math/statistics/re)',
+           'the Lean driver (`c04.batch`, `fn`) and the wire encoding of formulas, environments and records (harness/fx.py); '
+           'floats are compared up to 4 ulps or 1e-9 relative error, dates up to 2 us + 2^-49 relative, a logical may stand '
+           'for the model integer of the same value (aggregates hand logical items back)',
+           'comparison operators applied to array-valued host values, complex results and the error GEOMEAN/HARMEAN pick among '
+           'several failing items are not compared with the model (evaluate_logic is modelled on scalars; statistics consumes '
+           'its data lazily)',
+           'strings, fn and wf calls of one worker share one parser per set-up (host and subs calls get a fresh one); only the '
+           'two array pool values are restored between calls']
+ASSUMPTIONS = ['"raising" host callbacks raise subclasses of Exception (ill-behaved ones included: unhashable, ==/hash/truth '
+               'value/str/traceback setter raising, a class instead of an instance); KeyboardInterrupt, SystemExit, '
+               'GeneratorExit and other bare BaseException subclasses propagate by design (`except Exception`) and are not '
+               'exercised',
+               '"bounded time" is read as: at most 10^6 + 100*len(input) interpreter steps (function entries + jumps, host '
+               'callbacks included) and at most T = 20 s * max(1, len/10^4)^2 of PROCESSOR time of the calling process per '
+               'call; wall-clock only triggers the reading (after T) and is the outer guard (10*T); a call that is blocked '
+               '(under 2 % processor share after T) or whose process dies does not return either',
+               '"a record holding exactly a result entry and an error entry" is read as a plain dict with exactly these two '
+               'keys and a plain str as code; every call hands out a record of its own: the caller may empty or overwrite it '
+               '(the harness does after every call, the reenter:edit host for the inner call) without effect on any later '
+               'record',
+               '"the result is never itself an error object" is about the result entry being an instance of XLError or of a '
+               'subclass; a list result may contain error objects, and the XLError class, an exception instance, nan or any '
+               'other host object is accepted',
+               'which of the nine codes is reported and which value results is not part of the statement: the oracle accepts '
+               'any; values and codes are checked only where the Lean model is compared',
+               'host callbacks that never return are not callbacks "that return or raise" and are not exercised: the unbounded '
+               're-entrant callback stops re-entering after 1000 calls; a listener that subscribes listeners while it runs '
+               '(re-arming) returns at every call and stops acting after 300000 calls: when delivery to such a host does not '
+               'end within the budgets, that is counted against parse',
+               '"whatever the ... custom functions and event listeners do" includes returning normally after changing the '
+               'subscriptions and bindings of the calling parser, re-entering parse on it and editing the records such inner '
+               'calls return',
+               'the input is a str (any code points, lone surrogates and NUL included, also the empty string); other argument '
+               'types are outside the statement']
 EXHAUSTIVE = {'quick': False, 'thorough': False}   # (c) is complete in thorough; strings and host behaviours sample infinite spaces
 
 STATS = {}          # run statistics, readable by the harness; also appended to RULE
